@@ -32,9 +32,10 @@ type Valuation struct {
 }
 
 type aterm struct {
-	key  string
-	neg  bool
-	deps []ssa.Value
+	key    string
+	neg    bool
+	deps   []ssa.Value
+	nonnil bool // the value is known to be a non-nil interface/pointer (result of fmt.Errorf, errors.New, &T{})
 }
 
 func (v *Valuation) clone() *Valuation {
@@ -99,6 +100,10 @@ func (v *Valuation) term(x ssa.Value, depth int) aterm {
 			if a.neg || b.neg {
 				break
 			}
+			if (a.key == "nil" && b.nonnil) || (b.key == "nil" && a.nonnil) {
+				// x == nil for a value known to be non-nil
+				return aterm{key: "true", neg: y.Op == token.EQL}
+			}
 			ks := []string{a.key, b.key}
 			sort.Strings(ks)
 			return aterm{key: "eq(" + ks[0] + "," + ks[1] + ")", neg: y.Op == token.NEQ, deps: append(append([]ssa.Value{}, a.deps...), b.deps...)}
@@ -106,7 +111,18 @@ func (v *Valuation) term(x ssa.Value, depth int) aterm {
 	case *ssa.ChangeType:
 		return v.term(y.X, depth+1)
 	case *ssa.MakeInterface:
-		return v.term(y.X, depth+1)
+		a := v.term(y.X, depth+1)
+		if _, isPtr := y.X.(*ssa.Alloc); isPtr {
+			a.nonnil = true
+		}
+		return a
+	case *ssa.Call:
+		switch CalleeFullName(y) {
+		case "fmt.Errorf", "errors.New":
+			return aterm{key: "v:" + x.Name(), deps: []ssa.Value{x}, nonnil: true}
+		}
+	case *ssa.Alloc:
+		return aterm{key: "v:" + x.Name(), deps: []ssa.Value{x}, nonnil: true}
 	}
 	return aterm{key: "v:" + x.Name(), deps: []ssa.Value{x}}
 }
@@ -182,6 +198,7 @@ func (v *Valuation) forget(b *ssa.BasicBlock) {
 // PathQuery is the search.
 type PathQuery struct {
 	Fn        *ssa.Function
+	From      ssa.Instruction // start right after this instruction with an empty valuation (nil: function entry)
 	Target    func(in ssa.Instruction, val *Valuation) bool // true: this arrival is a witness
 	Stop      func(in ssa.Instruction) bool                 // paths end here (optional)
 	MaxStates int
@@ -218,8 +235,18 @@ func (q PathQuery) Find() (*Witness, error) {
 		prev  *ssa.BasicBlock
 		val   *Valuation
 		trail []int
+		first int // index of the first instruction to look at (only for the start item)
 	}
 	start := item{blk: fn.Blocks[0], val: &Valuation{fn: fn, known: map[string]bool{}, deps: map[string][]ssa.Value{}, alias: map[ssa.Value]aterm{}, stored: stored}, trail: []int{0}}
+	if q.From != nil {
+		start.blk = q.From.Block()
+		start.trail = []int{start.blk.Index}
+		for i, in := range start.blk.Instrs {
+			if in == q.From {
+				start.first = i + 1
+			}
+		}
+	}
 	seen := map[string]bool{}
 	work := []item{start}
 	states := 0
@@ -253,12 +280,17 @@ func (q PathQuery) Find() (*Witness, error) {
 			}
 		}
 		val = val.clone()
-		val.forget(it.blk)
+		if it.first == 0 {
+			val.forget(it.blk)
+		}
 		for _, b := range binds {
 			val.alias[b.p] = b.a
 		}
 		stopped := false
-		for _, in := range it.blk.Instrs {
+		for i, in := range it.blk.Instrs {
+			if i < it.first {
+				continue
+			}
 			if q.Target != nil && q.Target(in, val) {
 				return &Witness{Blocks: it.trail, End: in}, nil
 			}
